@@ -248,7 +248,10 @@ def run(ctx):
     leaves = [ir.Condition("A", "==", right_value="1", right_cal=False), ir.Condition("A", "<", right_param="B"),
               ir.Condition("B", ">=", right_value="0.5", right_cal=False), ir.Condition("C", "==", right_value="A", right_cal=False),
               ir.Condition("A", "!=", right_value="0", right_cal=False), ir.Condition("B", "leq", right_param="A", right_cal=True),
-              ir.Condition("C", "neq", right_value="B", right_cal=False), ir.Condition("A", "&gt;", right_value="-1", left_cal=False, right_cal=False)]
+              ir.Condition("C", "neq", right_value="B", right_cal=False), ir.Condition("A", "&gt;", right_value="-1", left_cal=False, right_cal=False),
+              # pairs that differ ONLY in a calibrated/raw selector (B: derived float, raw 1; the relation flips between them)
+              ir.Condition("B", "==", right_value="1", left_cal=True, right_cal=False), ir.Condition("B", "==", right_value="1", left_cal=False, right_cal=False),
+              ir.Condition("A", "<", right_param="B", left_cal=True, right_cal=True), ir.Condition("A", "<", right_param="B", left_cal=True, right_cal=False)]
     assigns = [{"A": ("int", a, a), "B": ("float", b_, 1), "C": ("str", c, 0)}
                for a in (0, 1, -1, 2) for b_ in (0.0, 0.5, -0.0, 1.0) for c in ("", "A")]
     shapes = list(tree_shapes(4))
